@@ -576,7 +576,10 @@ def main(tier: str) -> int:
             n_ok += 1
             if info["result"] == "RTagErr" and describe_change(rec["build"]):
                 fid = "C10-malformed-tag-after-mutation"
-                ck.known(fid, (known.get(fid) or PROPOSED_KNOWN[fid])["what"])
+                if fid in known:
+                    ck.known(fid, known[fid]["what"])
+                else:
+                    ck.violation(replay_obj(rec, "a failed build (unparsable function tag) modified the tree"))
             continue
         sig = code
         if sig in reported:
